@@ -199,6 +199,10 @@ func (l *lexer) emit(t tokenType) {
 func (l *lexer) errorf(format string, args ...interface{}) stateFn {
 	tok := token{fmt.Sprintf(format, args...), tokenError, Pos{l.line, l.offset}}
 	l.tokens <- tok
+	// The lexer stops here: close the channel so that a parser which reads on
+	// keeps receiving the error token instead of blocking forever.
+	close(l.tokens)
+	l.mode = modeClosed
 
 	return nil
 }
